@@ -142,6 +142,8 @@ func (st *c05State) check(cs *c05Case) {
 	var z render.Renderer
 	st.ras.ResetLog()
 	z.SetRasterizer(&st.ras, rect)
+	// the Renderer was used before for a graphic whose viewBox has the same extent but another origin
+	z.Reset(ivg.ViewBox{MinX: vb.MinX + 5, MinY: vb.MinY - 3, MaxX: vb.MaxX + 5, MaxY: vb.MaxY - 3}, ivg.DefaultPalette)
 	z.Reset(vb, ivg.DefaultPalette)
 	reps := cs.Reps
 	if reps == 0 {
@@ -222,8 +224,9 @@ func (st *c05State) check(cs *c05Case) {
 				fail(key+":close-draw", "expected ClosePath then Draw at the end of the path; rasteriser log: "+rec.RCallsString(calls))
 				return
 			}
-			if dr.R != rect || dr.SP != (image.Point{}) || dr.Paint.Kind != 1 {
-				fail(key+":draw-args", fmt.Sprintf("Draw(%v, %s, %v), expected Draw(%v, flat paint, (0,0))", dr.R, dr.Paint, dr.SP, rect))
+			// (the source point is immaterial for a flat paint; C15/C16 judge it for gradients)
+			if dr.R != rect || dr.Paint.Kind != 1 {
+				fail(key+":draw-args", fmt.Sprintf("Draw(%v, %s, %v), expected Draw(%v, flat paint, ...)", dr.R, dr.Paint, dr.SP, rect))
 				return
 			}
 		case rec.MAbsMove, rec.MRelMove:
